@@ -181,8 +181,41 @@ def run(chk):
         xs = [base, base + "A", base[:-1], base[:100] + "C" + base[100:], "A" * 256, "A" * 257]
         sop = {"op": "brute_self", "xs": xs, "k": 1, "mode": "lev"}
         b.add("kdtree|long", lambda xs=xs, comp=comp: nn.kdtree(xs, max_edits=1, compression=comp), None, sop, {"n": len(xs), "compression": comp, "k": 1})
+    # hash_based at max_edits = 3 and 4 (the edit ball is built level by level; tiny strings keep it small)
+    for _ in range(6 if not thorough else 30):
+        xs = ["".join(rng.choice("ACDW") for _ in range(rng.randint(0, 2))) for _ in range(rng.randint(2, 5))] + ["C", "AAA"]
+        sop = {"op": "brute_self", "xs": xs, "k": 3, "mode": "lev"}
+        b.add("hash_based|k3-tiny", lambda xs=xs: nn.hash_based(xs, max_edits=3), None, sop, {"xs": xs, "k": 3})
     chk.exhaustive = True
     b.run()
+
+    # ---- a large collection (several thousand sequences: internal block sizes / chunking): the three engines must agree triplet
+    # for triplet; a disagreement is settled pair by pair with the true distance and reported against the engine that is wrong
+    from Levenshtein import distance as levd
+    nbig = 4500 if not thorough else 9000
+    big = gen.repertoire(rng, nbig, minlen=6, maxlen=9, allow_empty=False)
+    outs = {}
+    for name, fn in (("nearest_neighbor", lambda: nn.nearest_neighbor(big, max_edits=1)), ("kdtree", lambda: nn.kdtree(big, max_edits=1)),
+                     ("hash_based", lambda: nn.hash_based(big, max_edits=1))):
+        r = core.call_real(lambda: set((int(a), int(b_), int(d)) for a, b_, d in fn()))
+        chk.case(nontrivial_key=("large", name))
+        chk.count("large-collection")
+        if r[0] != "ok":
+            chk.violation(f"C04|{name}|large|raises-{r[1]}", f"{name} raised {r[1]} on {nbig} sequences", {"n": nbig})
+        else:
+            outs[name] = r[1]
+    if len(outs) >= 2:
+        union = set().union(*outs.values())
+        for name, got in outs.items():
+            wrong = [t for t in got if not (t[0] != t[1] and 0 <= t[0] < nbig and 0 <= t[1] < nbig and levd(big[t[0]], big[t[1]]) == t[2] <= 1)]
+            missing = [t for t in union - got if t[0] != t[1] and 0 <= t[0] < nbig and 0 <= t[1] < nbig and levd(big[t[0]], big[t[1]]) == t[2] <= 1]
+            if wrong or missing:
+                ex = (wrong or missing)[0]
+                chk.violation(f"C04|{name}|large|{'spurious' if wrong else 'missing'}",
+                              f"{name} on {nbig} sequences: {len(wrong)} reported triplets are not true neighbour pairs, {len(missing)} true pairs found by "
+                              f"another engine are missing, e.g. {ex}: {big[ex[0]]!r} / {big[ex[1]]!r}",
+                              {"n": nbig, "example": list(ex), "seq_i": big[ex[0]], "seq_j": big[ex[1]], "n_wrong": len(wrong), "n_missing": len(missing),
+                               "generator": "gen.repertoire(rng(seed), n, minlen=6, maxlen=9, allow_empty=False)"})
 
 
 def replay(path):
